@@ -161,7 +161,86 @@ func execC15(ctx *Ctx, in *Input) *Result {
 			}
 		}
 	}
+	// (e) a parse during package initialisation and (f) a long-lived parser re-initialised very many times
+	soakN := 1_200_000
+	for si, sc := range pb.Specs {
+		if len(sc.Feeds) == 0 {
+			continue
+		}
+		for _, u := range sc.sortedUnits() {
+			if u.GenErr != "" || u.CompErr != "" || u.Variant.Lang != "go" {
+				continue
+			}
+			goJobs = append(goJobs, engbrt.Job{Parser: u.Name, Kind: "boot", Budget: 3000})
+			goPlans = append(goPlans, plan{sc: sc, u: u})
+			if si == (in.Index/2)%len(pb.Specs) && u.Variant.Unpack == (in.Index%2 == 0) && (ctx.Thorough() || in.Index%8 < 2) {
+				// one short input, the way a server parses small requests for days
+				best := -1
+				for fi := range sc.Feeds {
+					if n := len(sc.Feeds[fi].Toks); n >= 1 && n <= 4 && sc.Feeds[fi].PanicAt < 0 && (best < 0 || sc.Feeds[fi].Sentence) {
+						best = fi
+						if sc.Feeds[fi].Sentence {
+							break
+						}
+					}
+				}
+				if best >= 0 {
+					fd := sc.Feeds[best].feed()
+					goJobs = append(goJobs, engbrt.Job{Parser: u.Name, Kind: "soak", Feeds: []engbrt.Feed{fd}, N: soakN, Budget: 3000})
+					goPlans = append(goPlans, plan{sc: sc, u: u, feeds: [][]int{{best}}})
+				}
+			}
+		}
+	}
 	judge := func(jr *engbrt.JobResult, pl plan) *Result {
+		if jr.Kind == "boot" {
+			res.Count("parses_during_package_initialisation", 1)
+			if jr.Err != "" || len(jr.Parses) != 1 {
+				res.Harness = "engine B boot job: " + jr.Err
+				return res
+			}
+			now := jr.Parses[0].Outcome
+			then := "other"
+			switch {
+			case jr.Boot == "accept":
+				then = "accept"
+			case jr.Boot == "nil":
+				then = "nilret"
+			case strings.HasPrefix(jr.Boot, "panic: Grammar error"):
+				then = "syntax"
+			}
+			if jr.Boot == "skipped" || strings.HasPrefix(jr.Boot, "panic: boot parse: step budget") {
+				res.Count("boot_parse_not_judged(loops or unbounded)", 1)
+				return nil
+			}
+			if now != "budget" && then != now {
+				res.Viol = &Violation{Class: "initialisation-order", Key: "initialisation-order", Sub: pl.u.SpecIdx,
+					Msg: fmt.Sprintf("grammar [%s], variant %s: a parse of the empty input from a package-level initialiser ended %q, the same parse after initialisation ends %q (%s)", pl.sc.Spec.Short(), pl.u.Variant, jr.Boot, now, jr.Parses[0].Msg)}
+				return res
+			}
+			return nil
+		}
+		if jr.Kind == "soak" {
+			res.Count("soak_histories", 1)
+			res.Count("soak_reinit_and_parse_rounds", jr.SoakRounds)
+			if jr.Err != "" || len(jr.Parses) == 0 {
+				res.Harness = "engine B soak job: " + jr.Err
+				return res
+			}
+			fi := pl.feeds[0][0]
+			if d := diffParse2(&solo[pl.u.Name][fi], &jr.Parses[0], pl.sc, pl.u, true); d != "" {
+				res.Viol = &Violation{Class: "history-dependence", Key: "history-dependence", Sub: pl.u.SpecIdx,
+					Msg: fmt.Sprintf("grammar [%s], variant %s: the first parse of a soak run differs from the same input parsed alone: %s", pl.sc.Spec.Short(), pl.u.Variant, d)}
+				return res
+			}
+			if jr.SoakDeviation > 0 && len(jr.Parses) > 1 {
+				res.Viol = &Violation{Class: "history-dependence", Key: "history-dependence", Sub: pl.u.SpecIdx,
+					Msg: fmt.Sprintf("grammar [%s], variant %s: one parser re-initialised before every parse of [%s]: round %d differs from round 0: %s", pl.sc.Spec.Short(), pl.u.Variant,
+						feedStr(pl.sc.Spec, pl.sc.Feeds[fi].Toks), jr.SoakDeviation, diffParse2(&jr.Parses[0], &jr.Parses[1], pl.sc, pl.u, true))}
+				return res
+			}
+			return nil
+		}
 		lists := [][]engbrt.ParseResult{jr.Parses}
 		kind := "history"
 		if jr.Kind == "interleave" {
